@@ -98,9 +98,9 @@ type Expect struct {
 	Detail string `json:"detail,omitempty"`
 }
 
-func (p *Plan) C(key string) int64     { return p.Cfg[key] }
-func (p *Plan) B(key string) bool      { return p.Cfg[key] != 0 }
-func (p *Plan) CS(key string) string   { return p.CfgS[key] }
+func (p *Plan) C(key string) int64      { return p.Cfg[key] }
+func (p *Plan) B(key string) bool       { return p.Cfg[key] != 0 }
+func (p *Plan) CS(key string) string    { return p.CfgS[key] }
 func (p *Plan) Set(key string, v int64) { p.Cfg[key] = v }
 func (p *Plan) SetB(key string, v bool) {
 	if v {
